@@ -154,7 +154,10 @@ func errChecked(fn *ssa.Function, ev ssa.Value) (bool, string) {
 				for _, x := range b.Instrs {
 					if ret, ok := x.(*ssa.Return); ok {
 						sawRet = true
-						if errIdx >= 0 && isNilConst(retResult(ret, errIdx)) {
+						if errIdx >= 0 && (isNilConst(retResult(ret, errIdx)) || definitelyNilAt(gProg, retResult(ret, errIdx), ret.Block(), 0)) {
+							// `return nil`, or a value that is known to be nil here: another error variable
+							// that was tested (and found nil) earlier, possibly wrapped by a helper that
+							// hands nil through — the failure just detected is reported as success
 							allErr = false
 						}
 					}
@@ -971,4 +974,100 @@ func alwaysCallsOnSuccess(p *Program, fn *ssa.Function, pred func(string) bool, 
 		}
 	}
 	return true
+}
+
+// definitelyNilAt: the error value v is nil whenever control is in block blk — it is the nil
+// constant, a value whose `!= nil` test has already failed on every way into blk, or such a value
+// passed through a wrapper that returns nil for a nil argument.
+func definitelyNilAt(p *Program, v ssa.Value, blk *ssa.BasicBlock, depth int) bool {
+	if v == nil || depth > 3 {
+		return false
+	}
+	if isNilConst(v) {
+		return true
+	}
+	if c, ok := v.(*ssa.Call); ok && p != nil {
+		if cal := staticCallee(c); cal != nil && p.inModule(cal) {
+			if k := nilWhenParamNil(cal); k >= 0 && k < len(c.Call.Args) {
+				return definitelyNilAt(p, c.Call.Args[k], blk, depth+1)
+			}
+		}
+		return false
+	}
+	refs := v.Referrers()
+	if refs == nil {
+		return false
+	}
+	for _, in := range *refs {
+		bo, ok := in.(*ssa.BinOp)
+		if !ok || (bo.Op != token.NEQ && bo.Op != token.EQL) || (!isNilConst(bo.X) && !isNilConst(bo.Y)) || bo.Referrers() == nil {
+			continue
+		}
+		for _, u := range *bo.Referrers() {
+			iff, ok := u.(*ssa.If)
+			if !ok {
+				continue
+			}
+			nilSucc := iff.Block().Succs[1]
+			if bo.Op == token.EQL {
+				nilSucc = iff.Block().Succs[0]
+			}
+			// the nil edge must be the only way from the test into blk: the nil successor has the test
+			// block as its only predecessor and dominates blk
+			if len(nilSucc.Preds) == 1 && nilSucc.Dominates(blk) {
+				return true
+			}
+		}
+	}
+	return false
+}
+
+// nilWhenParamNil: module function whose error result is the nil constant on every return that is
+// taken when its error parameter k is nil (WrapError(op, err): if err == nil { return nil }).
+func nilWhenParamNil(f *ssa.Function) int {
+	if f == nil || len(f.Blocks) == 0 {
+		return -1
+	}
+	ei := errorResultIndex(f.Signature)
+	if ei < 0 {
+		return -1
+	}
+	for k, par := range f.Params {
+		if !isErrorType(par.Type()) || par.Referrers() == nil {
+			continue
+		}
+		for _, in := range *par.Referrers() {
+			bo, ok := in.(*ssa.BinOp)
+			if !ok || (bo.Op != token.NEQ && bo.Op != token.EQL) || (!isNilConst(bo.X) && !isNilConst(bo.Y)) || bo.Referrers() == nil {
+				continue
+			}
+			for _, u := range *bo.Referrers() {
+				iff, ok := u.(*ssa.If)
+				if !ok {
+					continue
+				}
+				nb := iff.Block().Succs[0]
+				if bo.Op == token.NEQ {
+					nb = iff.Block().Succs[1]
+				}
+				region := edgeRegion(iff.Block(), nb)
+				if len(region) == 0 {
+					region = map[*ssa.BasicBlock]bool{nb: true}
+				}
+				okAll, any := true, false
+				for _, ret := range returnsOf(f) {
+					if region[ret.Block()] {
+						any = true
+						if !isNilConst(retResult(ret, ei)) {
+							okAll = false
+						}
+					}
+				}
+				if any && okAll && iff.Block() == f.Blocks[0] {
+					return k
+				}
+			}
+		}
+	}
+	return -1
 }
